@@ -58,7 +58,7 @@ func C08(tier common.Tier) int {
 	thorough := tier == "thorough"
 	tokens := c08Tokens()
 	run.SetRule("state = one configuration S of exclude-checks; the covering program (all 16 codes, 3 files, 2 packages) is analysed by the real ConfigReader -> IgnoreReader -> checkers path in-process (flag value or environment variable; VerifResetConfig hook between configurations) and the diagnostic set must equal the unrestricted baseline filtered by the ALL>category>code rule. Subsets are enumerated in order of cardinality. Conformance: a spread of configurations is also run on the real binary and the vet driver (flag and env) against the same reference. Non-trivial = S removes at least one and keeps at least one diagnostic.",
-		"quick: all subsets of the 22 real tokens with |S|<=2 in both orders, all ordered sequences with repetition of length<=3 over 7 tokens, all 2^3 sub-chains {ALL,category,code} per code, junk tokens, case/spacing variants, flag and env, each also on the program variant with inert @ignore markers and on a variant with real markers (category / list / ALL) judged against its own unrestricted run; thorough: all 2^22 subsets in order of cardinality under a time budget (completed cardinality reported)")
+		"quick: all subsets of the 22 real tokens with |S|<=2 in both orders, the complements (all codes of a category but one, all codes but one, all categories but one, all codes of two categories), all ordered sequences with repetition of length<=3 over 7 tokens, all 2^3 sub-chains {ALL,category,code} per code, junk tokens, case/spacing variants, flag and env, each also on the program variant with inert @ignore markers and on a variant with real markers (category / list / ALL) judged against its own unrestricted run; thorough: all 2^22 subsets in order of cardinality under a time budget (completed cardinality reported)")
 	run.Assume("hook: analyzer.VerifResetConfig (build tag verif, overlay) forgets the process-wide cached configuration; nothing else is replaced")
 	base := e1.IgBases()[0]
 	p := base.Program()
@@ -191,6 +191,53 @@ func C08(tier common.Tier) int {
 						}
 					}
 					add(s...)
+				}
+			}
+		}
+		// complements: every category's codes but one; every code but one; every category but one; all codes of two categories
+		{
+			var every []string
+			var cats []string
+			for cat := range allCodes {
+				cats = append(cats, cat)
+			}
+			sort.Strings(cats)
+			for _, cat := range cats {
+				codes := allCodes[cat]
+				every = append(every, codes...)
+				add(codes...)
+				for skip := range codes {
+					var s []string
+					for i, c := range codes {
+						if i != skip {
+							s = append(s, c)
+						}
+					}
+					add(s...)
+					add(append(append([]string{}, s...), "XYZ")...)
+				}
+			}
+			for skip := range every {
+				var s []string
+				for i, c := range every {
+					if i != skip {
+						s = append(s, c)
+					}
+				}
+				add(s...)
+			}
+			for skip := range cats {
+				var s []string
+				for i, c := range cats {
+					if i != skip {
+						s = append(s, c)
+					}
+				}
+				add(s...)
+			}
+			for i := range cats {
+				for j := i + 1; j < len(cats); j++ {
+					add(append(append([]string{}, allCodes[cats[i]]...), allCodes[cats[j]]...)...)
 				}
 			}
 		}
